@@ -29,7 +29,7 @@ def mape(y_pred, y_test):
         The MAPE for the given predictions.
 
     """
-    return np.nanmean(100.0 * np.abs(y_test - y_pred.ravel()) / np.abs(y_test).ravel())
+    return np.nanmean(100.0 * np.abs(y_test.ravel() - y_pred.ravel()) / np.abs(y_test).ravel())
 
 
 def bias(y_pred, y_test):
